@@ -357,11 +357,37 @@ Record sflags := SFlags { f_subsets : bool;    (* every _find_combine_subsets an
                           f_contract : bool;   (* every in_series / in_parallel answer in which something was combined met its contract *)
                           f_ground : bool;     (* no series answer has the reference node strictly inside *)
                           f_kinds : bool;      (* the stages of the trace are the stages the model runs *)
-                          f_raw : bool }.      (* every answer in which something was combined is a chain / group on node names *)
-Definition fl_orders (fl : sflags) (b : bool) : sflags := SFlags (f_subsets fl) (f_orders fl && b) (f_contract fl) (f_ground fl) (f_kinds fl) (f_raw fl).
-Definition fl_subsets (fl : sflags) (b : bool) : sflags := SFlags (f_subsets fl && b) (f_orders fl) (f_contract fl) (f_ground fl) (f_kinds fl) (f_raw fl).
-Definition fl_contract (fl : sflags) (b g r : bool) : sflags := SFlags (f_subsets fl) (f_orders fl) (f_contract fl && b) (f_ground fl && g) (f_kinds fl) (f_raw fl && r).
-Definition fl_kinds (fl : sflags) (b : bool) : sflags := SFlags (f_subsets fl) (f_orders fl) (f_contract fl) (f_ground fl) (f_kinds fl && b) (f_raw fl).
+                          f_raw : bool;        (* every answer in which something was combined is a chain / group on node names *)
+                          f_events : list nat }. (* combine events at which a precondition of the equivalence theorems fails *)
+Definition fl_orders (fl : sflags) (b : bool) : sflags := SFlags (f_subsets fl) (f_orders fl && b) (f_contract fl) (f_ground fl) (f_kinds fl) (f_raw fl) (f_events fl).
+Definition fl_subsets (fl : sflags) (b : bool) : sflags := SFlags (f_subsets fl && b) (f_orders fl) (f_contract fl) (f_ground fl) (f_kinds fl) (f_raw fl) (f_events fl).
+Definition fl_contract (fl : sflags) (b g r : bool) : sflags := SFlags (f_subsets fl) (f_orders fl) (f_contract fl && b) (f_ground fl && g) (f_kinds fl) (f_raw fl && r) (f_events fl).
+Definition fl_kinds (fl : sflags) (b : bool) : sflags := SFlags (f_subsets fl) (f_orders fl) (f_contract fl) (f_ground fl) (f_kinds fl && b) (f_raw fl) (f_events fl).
+Definition fl_events (fl : sflags) (l : list nat) : sflags := SFlags (f_subsets fl) (f_orders fl) (f_contract fl) (f_ground fl) (f_kinds fl) (f_raw fl) (f_events fl ++ l).
+(* preconditions of the equivalence theorems for the UNCHANGED tree
+   (plain_ok_series / plain_ok_parallel of RewriteSem.v and same_kwf), as tags:
+   1 polarity:V  2 polarity:I  3 polarity:ic:C-series  4 polarity:ic:L-parallel
+   5 ic-sum:L-series  6 ic-sum:C-parallel  7 ic-mixed:C-series  8 ic-mixed:L-parallel  9 kw-mixed *)
+Definition nonzero_ic (e : elem) : bool := has_ic e && negb (keqb (icv e) f0).
+Definition event_tags (vr : variant) (series : bool) (t : ety) (els : list elem) (sames : list bool) : list nat :=
+  let opp := existsb negb sames in
+  let opp_ic := existsb (fun p => negb (snd p) && nonzero_ic (fst p)) (combine els sames) in
+  let any_ic := existsb nonzero_ic els in
+  let first_ic := match els with e :: _ => has_ic e | [] => false end in
+  let kwmix := match els with e :: l => existsb (fun x => negb (skw_eqb (ekw x) (ekw e))) l | [] => false end in
+  (if kwmix && (ety_eqb t TV || ety_eqb t TI) then [9] else []) ++
+  (if v_polarity vr then [] else
+     match t, series with
+     | TV, true => if opp then [1] else []
+     | TI, false => if opp then [2] else []
+     | TC, true => (if opp_ic then [3] else []) ++ (if negb first_ic && any_ic then [7] else [])
+     | TL, false => (if opp_ic then [4] else []) ++ (if negb first_ic && any_ic then [8] else [])
+     | _, _ => [] end) ++
+  (if v_ic_common vr then [] else
+     match t, series with
+     | TL, true => if any_ic then [5] else []
+     | TC, false => if any_ic then [6] else []
+     | _, _ => [] end).
 Definition no_order (sb : sub) : bool := match s_order sb with None => true | Some _ => false end.
 
 Definition do_sub (vr : variant) (series : bool) (S : netlist) (a : aset) (acc : res (cstate * sflags)) (sb : sub) : res (cstate * sflags) :=
@@ -396,7 +422,7 @@ Definition do_sub (vr : variant) (series : bool) (S : netlist) (a : aset) (acc :
           | Some o =>
             match do_combine vr S st o sames add series common signed with
             | Err => Err
-            | Ok st' => Ok (st', fl_orders fl (same_set o (s_names sb) && nodup_names o && okp))
+            | Ok st' => Ok (st', fl_events (fl_orders fl (same_set o (s_names sb) && nodup_names o && okp)) (event_tags vr series (s_type sb) els sames))
             end
           end
         end
@@ -462,7 +488,7 @@ Fixpoint passes_loop (vr : variant) (g : sargs) (skip : list name) (n : nat) (x 
   end.
 Definition simplify (vr : variant) (g : sargs) (N : netlist) (trace : list stage) : res sstate :=
   passes_loop vr g (skip_of g N) (if Nat.eqb (g_passes g) 0 then 100 else g_passes g)
-              (SState N (SFlags true true true true true true) trace).
+              (SState N (SFlags true true true true true true []) trace).
 
 (* ---- the other rewrites ------------------------------------------------------ *)
 (* renumber / _rename_nodes: every node name goes through the map *)
@@ -480,17 +506,20 @@ Definition z_of (e : elem) : K :=
   match etyp e with TC => fdiv f1 (fmul s (eval e)) | TL => fmul s (eval e) | TY => fdiv f1 (eval e) | _ => eval e end.
 Definition voc_of (e : elem) : K :=
   match etyp e with TC => fdiv (icv e) s | TL => fopp (fmul (eval e) (icv e)) | _ => f0 end.
-Definition s_model_elem (e : elem) (d : nat) : list elem * nat :=
+(* [lkw]: how the netlist text of an inductor's source -L i0 (a constant, no s
+   in it) is read back: KwS = as an s-domain value (what the model means),
+   KwNone = as a DC source (what the unchanged tree prints: "VL1 n 0 -5") *)
+Definition s_model_elem (lkw : skw) (e : elem) (d : nat) : list elem * nat :=
   match etyp e with
   | TR | TNR | TC | TL | TZ | TY =>
       if keqb (voc_of e) f0 then ([Elem (NVar 0 (orig_id (ename e))) TZ (enodes e) KwNone (z_of e) None], d)
       else ([Elem (NVar 0 (orig_id (ename e))) TZ [en1 e; d] KwNone (z_of e) None;
-             Elem (NVar 1 (orig_id (ename e))) TV [d; en2 e] KwS (voc_of e) None], S d)
+             Elem (NVar 1 (orig_id (ename e))) TV [d; en2 e] (match etyp e with TL => lkw | _ => KwS end) (voc_of e) None], S d)
   | TV | TI => ([Elem (ename e) (etyp e) (enodes e) KwS (src_laplace (ekw e) (eval e)) None], d)
   | _ => ([e], d)
   end.
-Fixpoint s_model (N : netlist) (d : nat) : netlist :=
-  match N with [] => [] | e :: N' => let '(l, d') := s_model_elem e d in l ++ s_model N' d' end.
+Fixpoint s_model (lkw : skw) (N : netlist) (d : nat) : netlist :=
+  match N with [] => [] | e :: N' => let '(l, d') := s_model_elem lkw e d in l ++ s_model lkw N' d' end.
 (* RC._noisy: R -> NR in series with a noise voltage source through a dummy
    node; kill_noise turns every noise source into a wire *)
 Definition noisy_elem (e : elem) (d : nat) : list elem * nat :=
